@@ -23,7 +23,7 @@ META = dict(
     decides='well-formedness of every assembly of the templates and the chunk-boundary-safe comma protocol',
     undecided='that the item multiset equals the delta/snapshot for all sizes (iterator semantics of rpki arc_iter)',
     trusted_base=['rustc MIR construction + callee resolution', 'Display of the inert types'],
-    rules=['K6 inert interpolation', 'template grammar assembly', 'K4 comma protocol with persistent flag'],
+    rules=['K6 inert interpolation', 'template grammar assembly', 'K4 comma protocol with persistent flag', 'K2 sections closed where the iterator is retired', 'K2 a pulled item is written before the next pull / return', 'initial state of both streams'],
 )
 
 SAMPLES = [
